@@ -258,11 +258,17 @@ def opt_model(case):
         ds.append({"id": "d5", "type": "Distribution", "distribution": "torch.distributions.Normal",
                    "parameters": {"loc": [f(), f()], "scale": [s(), s()]},
                    "x": {"id": "v", "type": "Parameter", "full_like": "w", "tensor": 0.25}})
+    if case.get("unused"):
+        # a parameter the loss does not depend on (the optimiser keeps no state for it), registered on its own
+        return [{"id": "u", "type": "Parameter", "tensor": [f(), f()]},
+                {"id": "joint", "type": "JointDistributionModel", "distributions": ds}]
     return {"id": "joint", "type": "JointDistributionModel", "distributions": ds}
 
 
 def opt_config(case, ck, iters, freq):
     pars = ["x", "y", "z"] + (["w", "v"] if case.get("explicit32") else [])
+    if case.get("unused"):
+        pars = ["x", "u", "y", "z"]
     if case.get("groups"):
         pj = [{"params": ["x"], "lr": case["lr"] * 0.5}, {"params": pars[1:]}]
     else:
@@ -277,7 +283,8 @@ def opt_config(case, ck, iters, freq):
         sc = {"id": "sched", "type": "Scheduler"}
         sc.update(case["scheduler"])
         opt["scheduler"] = sc
-    return [opt_model(case), opt]
+    m = opt_model(case)
+    return (m if isinstance(m, list) else [m]) + [opt]
 
 
 def mcmc_model(case):
@@ -311,6 +318,7 @@ ADAPTORS = {
     "adaptive_rate": lambda: {"id": "ad.step", "type": "AdaptiveStepSize", "integrator": "lf",
                               "use_acceptance_rate": True, "start": 2},
     "dual": lambda: {"id": "ad.dual", "type": "DualAveragingStepSize", "integrator": "lf"},
+    "dual_late": lambda: {"id": "ad.dual", "type": "DualAveragingStepSize", "integrator": "lf", "start": 4},
     "mass": lambda: {"id": "ad.mass", "type": "MassMatrixAdaptor", "parameters": ["y"], "mass_matrix": "mm",
                      "update_frequency": 2},
     "mass_window": lambda: {"id": "ad.mass", "type": "MassMatrixAdaptor", "parameters": ["y"],
@@ -651,6 +659,10 @@ def _batch(rng, tier, cases, suffix):
              N=N, K=K, groups=True, scheduler=sch[0][1]))
     add(dict(algo="optimizer", family="opt:Adam[explicit-float32-parameter]", algorithm="torch.optim.Adam",
              options={}, lr=0.05, N=N, K=K, explicit32=True))
+    add(dict(algo="optimizer", family="opt:Adam[unused-parameter-in-the-middle]", algorithm="torch.optim.Adam",
+             options={}, lr=0.05, N=N, K=K, unused=True))
+    add(dict(algo="optimizer", family="opt:SGD-momentum[unused-parameter-in-the-middle]", algorithm="torch.optim.SGD",
+             options={"momentum": 0.9}, lr=0.05, N=N, K=K, unused=True))
     f32 = ["Adam", "SGD-momentum", "LBFGS", "RMSprop"] if tier == "quick" else [o[0] for o in OPTIMISERS]
     for nm, alg, opts in OPTIMISERS:
         if nm in f32:
@@ -672,6 +684,7 @@ def _batch(rng, tier, cases, suffix):
         ("hmc[AdaptiveStepSize]", [H("adaptive")]),
         ("hmc[AdaptiveStepSize(use_acceptance_rate)]", [H("adaptive_rate")]),
         ("hmc[DualAveragingStepSize]", [H("dual")]),
+        ("hmc[DualAveragingStepSize(start=4)]", [H("dual_late")]),
         ("hmc[MassMatrixAdaptor]", [H("mass")]),
         ("hmc[MassMatrixAdaptor,dense]", [H("mass", mass="dense")]),
         # the second estimator must hold samples at the checkpoint: N not a multiple of swap_every
